@@ -24,6 +24,14 @@ func init() {
 	fw.ReplayHook = replaySpxFunc
 }
 
+// DescribeSpxFamilies appends the SPX family to the rule text of every check
+// that has one. Called from main once every check is registered.
+func DescribeSpxFamilies() {
+	for prop, hs := range spxProps {
+		fw.AppendRule(prop, "SPX family: harnesses "+strings.Join(hs, ", ")+" of C19 (environment steps as low-priority threads; decision points at every synchronisation operation), every schedule with <= 2 (server) / <= 1 (client) deviations from the run-to-quiescence order in quick and <= 3 / <= 2 in thorough, judged by this property's rules; a schedule is non-trivial if it has a decision point, distinct by (harness, choice prefix).")
+	}
+}
+
 // spxProps says which harnesses each property's SPX family explores.
 var spxProps = map[string][]string{
 	"C01": {"S1", "S2", "S9"},
